@@ -54,6 +54,12 @@ ASSUMPTIONS = [
     'computed by the harness on a fresh connection over that file), settings carried over',
     'the default CLOSE date is applied to SELECT statements only (what BQLShell.parse does); BALANCES/JOURNAL/PRINT '
     'named queries run unchanged',
+    'translator tie (C19_source_*): PyMini (Model/PyMini.v) is the semantics of the translated DispatchingShell.parseline / '
+    'onecmd and Settings._parse_bool; primitives of Model/PrimsApi.v (trusted): str.strip/lower are the model\'s, '
+    'cmd.Cmd.parseline is the model\'s cmd_parseline, getattr(self, "do_"+cmd, None) is a parameter, warnings.warn and '
+    'self.error are calls that return (their effect is not part of the theorem), message texts are uninterpreted; '
+    'do_set (try/except ... as ex, print) and Settings.getstr/setstr (dataclass introspection) are outside the fragment: '
+    'covered by the correspondence only',
 ]
 
 WORK = os.path.join(core.BUILD, 'c19')
@@ -274,7 +280,11 @@ def generate():
     for key in ('formats', 'parsers', 'commands', 'legacy'):
         txt += f'Definition {key} : list str :=\n  ' + clist([core.cstr(n) for n in info[key]]) + '.\n\n'
     core.write_if_changed(os.path.join(core.COQ, 'Gen', 'Settings.v'), txt)
-    return {'generated': {'Gen/Settings.v': {k: (len(v)) for k, v in info.items()}}}
+    out = {'generated': {'Gen/Settings.v': {k: (len(v)) for k, v in info.items()}}}
+    # translator tie: coq/Gen/SrcShell.v from the source of parseline / onecmd / _parse_bool (py2mini + src_api)
+    from . import gen_src
+    out.update(gen_src.generate('shell'))
+    return out
 
 
 # --------------------------------------------------------------------------
